@@ -31,7 +31,144 @@ def _extract():
     else: errs.append('uptime watchdog timer is no longer armed repeating in ms')
     return v, errs
 
+# ---- every read of the clock and every expression over a stored time stamp in the device sources (G for C19) -------------
+# One line per statement of the preprocessed sources that reads system_get_time()/RTC/uptime_* or compares / subtracts a
+# stored stamp.  The list below is the set of sites the C19 theorems and scenarios were written against; the first column
+# says how each site is covered:
+#   T-uptime / T-shutter / T-input / T-devconn / T-countdown-window   whole-trace (or window) theorem of Properties_C19.v
+#   D-cfgbutton        decision-level theorems (C12 model) + trace comparison (cfg-button scenarios)
+#   X-trace:<kinds>    trace comparison of corr/c19.py only (scenario kinds that carry the site across the wrap)
+#   N-bydesign / N-notexercised   raw counter used on purpose / code path not reachable in the harness scenarios
+# Any added, removed or rewritten statement (e.g. `t - x < N` turned into `t < x + N`) makes the translator fail.
+import grp_c08 as _g8
+FILES=['../../supla-common/srpc.c','supla_esp_gpio.c','supla_esp_rs_fb.c','supla_esp_devconn.c','supla_esp_input.c','supla_esp_countdown_timer.c','supla_esp_cfgmode.c','supla_esp_state.c','supla_esp_cfg.c','supla_update.c','supla_esp_wifi.c','supla_esp_dns_client.c','uptime.c','user_main.c']
+CLOCK=r'(?:system_get_time|system_get_rtc_time|uptime_usec|uptime_msec|uptime_sec)\s*\('
+TIMEID=r'(?:system_get_time|system_get_rtc_time|uptime_usec|uptime_msec|uptime_sec|\bt\b|\btime\b|now_ms|time_diff|delta_time|\bt1\b|\bt2\b|start_time|stop_time|last_time|last_comm_time|up_time|down_time|init_time|last_state_change|entertime|last_response|last_sent|next_wd_soft_timeout_challenge|last_system_time|register_time_sec|last_save_time|cycles)'
+def stmts(body):
+    # split into statements / conditions
+    parts=re.split(r'[;{}]', body)
+    return [re.sub(r'\s+',' ',p).strip() for p in parts]
+def sites():
+  res=[]
+  for f in FILES:
+      src=_g8._pp(f)
+      for name, body in _g8._functions(src):
+          if not re.search(CLOCK, body) and not re.search(r'(start_time|stop_time|last_comm_time|last_state_change|init_time|last_response|last_sent|entertime)', body): continue
+          for st in stmts(body):
+              if not re.search(TIMEID, st): continue
+              if re.search(CLOCK, st) or (re.search(r'[<>]=?|==|!=', st) and re.search(r'(start_time|stop_time|last_time|last_comm_time|up_time|down_time|init_time|last_state_change|entertime|last_response|last_sent|next_wd_soft|last_system_time|register_time_sec|last_save_time|delta_time|time_diff|\bt1\b|\bt2\b|\bt\b\s*[-<>]|[-<>]=?\s*\bt\b)', st)):
+                  res.append((os.path.basename(f)[:-2].replace('supla_esp_',''), name, st))
+
+  return res
+
+_SITES_EXPECTED = r"""
+N-bydesign:ping timestamp (canonicalised in the trace comparison) | srpc:srpc_dcs_async_ping_server | unsigned int time = system_get_time()
+T-shutter | gpio:supla_esp_gpio_relay_hi | unsigned int t = system_get_time()
+T-shutter | gpio:supla_esp_gpio_relay_hi | if (rs_cfg->start_time != 0)
+T-shutter | gpio:supla_esp_gpio_relay_hi | rs_cfg->start_time = 0
+T-shutter | gpio:supla_esp_gpio_relay_hi | if (rs_cfg->stop_time == 0)
+T-shutter | gpio:supla_esp_gpio_relay_hi | rs_cfg->stop_time = t
+T-shutter | gpio:supla_esp_gpio_relay_hi | if (rs_cfg->start_time == 0)
+T-shutter | gpio:supla_esp_gpio_relay_hi | rs_cfg->start_time = t
+T-shutter | gpio:supla_esp_gpio_relay_hi | if (rs_cfg->stop_time != 0)
+T-shutter | gpio:supla_esp_gpio_relay_hi | rs_cfg->stop_time = 0
+T-shutter | gpio:supla_esp_gpio_init | supla_esp_gpio_init_time = system_get_time()
+X-trace:autocal-stall | rs_fb:supla_esp_gpio_rs_check_motor | unsigned int t = system_get_time()
+X-trace:autocal-stall | rs_fb:supla_esp_gpio_rs_check_motor | if (t - rs_cfg->start_time < 300 * 1000)
+T-shutter | rs_fb:supla_esp_gpio_rs_set_relay | unsigned int t = system_get_time()
+T-shutter | rs_fb:supla_esp_gpio_rs_set_relay | if (500 && stop_delay == 1 && rs_cfg->start_time > 0 && rs_cfg->stop_time == 0 && (t - rs_cfg->start_time) / 1000 < 500)
+T-shutter | rs_fb:supla_esp_gpio_rs_set_relay | delay_time = 500 - (t - rs_cfg->start_time) / 1000 + 1
+T-shutter | rs_fb:supla_esp_gpio_rs_set_relay | t = system_get_time()
+T-shutter | rs_fb:supla_esp_gpio_rs_set_relay | if (1000 && rs_cfg->start_time == 0 && rs_cfg->stop_time > 0 && (t - rs_cfg->stop_time) / 1000 < 1000)
+T-shutter | rs_fb:supla_esp_gpio_rs_set_relay | delay_time = 1000 - (t - rs_cfg->stop_time) / 1000 + 1
+X-trace:shutter,autocal-stall,rs-10min(+finding rs-report-grid-anchor) | rs_fb:supla_esp_gpio_rs_timer_cb | if (supla_esp_gpio_init_time == 0) return
+X-trace:shutter,autocal-stall,rs-10min(+finding rs-report-grid-anchor) | rs_fb:supla_esp_gpio_rs_timer_cb | unsigned int t = system_get_time()
+X-trace:shutter,autocal-stall,rs-10min(+finding rs-report-grid-anchor) | rs_fb:supla_esp_gpio_rs_timer_cb | if (t - rs_cfg->start_time < 2000 * 1000)
+X-trace:shutter,autocal-stall,rs-10min(+finding rs-report-grid-anchor) | rs_fb:supla_esp_gpio_rs_timer_cb | rs_cfg->last_time = t
+X-trace:shutter,autocal-stall,rs-10min(+finding rs-report-grid-anchor) | rs_fb:supla_esp_gpio_rs_timer_cb | rs_cfg->down_time = 0
+X-trace:shutter,autocal-stall,rs-10min(+finding rs-report-grid-anchor) | rs_fb:supla_esp_gpio_rs_timer_cb | rs_cfg->up_time += (t - rs_cfg->last_time)
+X-trace:shutter,autocal-stall,rs-10min(+finding rs-report-grid-anchor) | rs_fb:supla_esp_gpio_rs_timer_cb | if (rs_cfg->up_time > 0)
+X-trace:shutter,autocal-stall,rs-10min(+finding rs-report-grid-anchor) | rs_fb:supla_esp_gpio_rs_timer_cb | supla_esp_gpio_rs_calibrate(rs_cfg, full_opening_time, rs_cfg->up_time, 100)
+X-trace:shutter,autocal-stall,rs-10min(+finding rs-report-grid-anchor) | rs_fb:supla_esp_gpio_rs_timer_cb | supla_esp_gpio_rs_move_position(rs_cfg, full_opening_time, &rs_cfg->up_time, 1, isRsInMove)
+X-trace:shutter,autocal-stall,rs-10min(+finding rs-report-grid-anchor) | rs_fb:supla_esp_gpio_rs_timer_cb | rs_cfg->down_time += (t - rs_cfg->last_time)
+X-trace:shutter,autocal-stall,rs-10min(+finding rs-report-grid-anchor) | rs_fb:supla_esp_gpio_rs_timer_cb | rs_cfg->up_time = 0
+X-trace:shutter,autocal-stall,rs-10min(+finding rs-report-grid-anchor) | rs_fb:supla_esp_gpio_rs_timer_cb | if (rs_cfg->down_time > 0)
+X-trace:shutter,autocal-stall,rs-10min(+finding rs-report-grid-anchor) | rs_fb:supla_esp_gpio_rs_timer_cb | supla_esp_gpio_rs_calibrate(rs_cfg, full_closing_time, rs_cfg->down_time, 10100)
+X-trace:shutter,autocal-stall,rs-10min(+finding rs-report-grid-anchor) | rs_fb:supla_esp_gpio_rs_timer_cb | supla_esp_gpio_rs_move_position(rs_cfg, full_closing_time, &rs_cfg->down_time, 0, isRsInMove)
+X-trace:shutter,autocal-stall,rs-10min(+finding rs-report-grid-anchor) | rs_fb:supla_esp_gpio_rs_timer_cb | rs_cfg->up_time = 0
+X-trace:shutter,autocal-stall,rs-10min(+finding rs-report-grid-anchor) | rs_fb:supla_esp_gpio_rs_timer_cb | rs_cfg->down_time = 0
+X-trace:shutter,autocal-stall,rs-10min(+finding rs-report-grid-anchor) | rs_fb:supla_esp_gpio_rs_timer_cb | if (t - rs_cfg->last_comm_time >= 200000)
+X-trace:shutter,autocal-stall,rs-10min(+finding rs-report-grid-anchor) | rs_fb:supla_esp_gpio_rs_timer_cb | if (rs_cfg->up_time > 600 * 1000 * 1000 || rs_cfg->down_time > 600 * 1000 * 1000)
+X-trace:shutter,autocal-stall,rs-10min(+finding rs-report-grid-anchor) | rs_fb:supla_esp_gpio_rs_timer_cb | rs_cfg->last_comm_time = t
+X-trace:shutter,autocal-stall,rs-10min(+finding rs-report-grid-anchor) | rs_fb:supla_esp_gpio_rs_timer_cb | rs_cfg->last_time = t
+T-devconn | devconn:supla_esp_data_write | devconn->last_sent = uptime_sec()
+T-devconn | devconn:supla_esp_data_write | if ( r == 0 ) devconn->last_sent = uptime_sec()
+N-bydesign:raw uptime reported | devconn:supla_esp_on_register_result | devconn->register_time_sec = uptime_sec()
+N-bydesign:raw uptime reported | devconn:supla_esp_get_channel_state | state->Uptime = uptime_sec()
+N-bydesign:raw uptime reported | devconn:supla_esp_get_channel_state | state->ConnectionUptime = uptime_sec() - devconn->register_time_sec
+T-devconn | devconn:supla_esp_on_remote_call_received | devconn->last_response = uptime_sec()
+T-devconn | devconn:supla_esp_devconn_watchdog_cb | if (uptime_sec() > devconn->last_response)
+T-devconn | devconn:supla_esp_devconn_watchdog_cb | if (uptime_sec() - devconn->last_response > 60)
+T-devconn | devconn:supla_esp_devconn_watchdog_cb | unsigned int t = uptime_sec() - devconn->last_response
+T-devconn | devconn:supla_esp_devconn_watchdog_cb | if (t >= 65 && t > devconn->server_activity_timeout && uptime_sec() > devconn->next_wd_soft_timeout_challenge)
+T-devconn | devconn:supla_esp_devconn_init | devconn->last_response = uptime_sec()
+T-devconn | devconn:supla_esp_devconn__reconnect | devconn->next_wd_soft_timeout_challenge = uptime_sec() + 65
+T-devconn | devconn:supla_esp_devconn_timer1_cb | t1 = uptime_sec()-devconn->last_sent
+T-devconn | devconn:supla_esp_devconn_timer1_cb | t2 = uptime_sec()-devconn->last_response
+T-devconn | devconn:supla_esp_devconn_timer1_cb | if ( t2 >= (devconn->server_activity_timeout+10) )
+T-devconn | devconn:supla_esp_devconn_timer1_cb | else if ( ( t1 >= (devconn->server_activity_timeout-5) && t1 <= devconn->server_activity_timeout ) || ( t2 >= (devconn->server_activity_timeout-5) && t2 <= devconn->server_activity_timeout ) )
+T-input | input:supla_esp_input_notify_state_change | if (system_get_time() - supla_esp_gpio_init_time < 400 * 1000)
+T-input(non-cfg)/D-cfgbutton | input:supla_esp_input_legacy_state_change_handling | if ((system_get_time() - input_cfg->last_state_change >= 2000 * 1000))
+T-input(non-cfg)/D-cfgbutton | input:supla_esp_input_legacy_state_change_handling | if (!supla_esp_input_is_cfg_on_hold_enabled(input_cfg) && system_get_time() - supla_esp_cfgmode_entertime() > 3000 * 1000 && supla_esp_input_can_button_exit_cfgmode(input_cfg))
+T-input(non-cfg)/D-cfgbutton | input:supla_esp_input_legacy_state_change_handling | input_cfg->last_state_change = system_get_time()
+T-input(non-cfg)/D-cfgbutton | input:supla_esp_input_legacy_state_change_handling | if (input_cfg->click_counter > 0 && system_get_time() - supla_esp_cfgmode_entertime() > 3000 * 1000 && supla_esp_input_can_button_exit_cfgmode(input_cfg))
+D-cfgbutton | input:supla_esp_input_legacy_timer_cb | if (system_get_time() - input_cfg->last_state_change >= supla_esp_input_get_cfg_press_time(input_cfg)*1000)
+T-input | input:supla_esp_input_advanced_state_change_handling | input_cfg->last_state_change = system_get_time()
+T-input | input:supla_esp_input_advanced_timer_cb | unsigned int delta_time = system_get_time() - input_cfg->last_state_change
+T-input | input:supla_esp_input_advanced_timer_cb | if (delta_time >= supla_esp_input_get_cfg_press_time(input_cfg) * 1000)
+T-input | input:supla_esp_input_advanced_timer_cb | if (input_cfg->click_counter == 1 && delta_time >= btn_hold_time_ms * 1000)
+T-input | input:supla_esp_input_advanced_timer_cb | if (delta_time >= btn_multiclick_time_ms * 1000)
+T-countdown-window | countdown_timer:supla_esp_countdown_timer_cb | unsigned long long now_ms = uptime_msec()
+T-countdown-window | countdown_timer:supla_esp_countdown_timer_cb | unsigned long long time_diff = now_ms - i->last_time
+T-countdown-window | countdown_timer:supla_esp_countdown_timer_cb | if (time_diff >= i->time_left_ms)
+T-countdown-window | countdown_timer:supla_esp_countdown_timer_cb | countdown_timer_vars.finish_cb(i->gpio_id, i->channel_number, i->target_value)
+T-countdown-window | countdown_timer:supla_esp_countdown_timer_cb | i->time_left_ms -= time_diff
+T-countdown-window | countdown_timer:supla_esp_countdown_timer_cb | i->last_time = now_ms
+T-countdown-window | countdown_timer:supla_esp_countdown_timer_countdown | if (countdown_timer_vars.items[a].channel_number == channel_number)
+T-countdown-window | countdown_timer:supla_esp_countdown_timer_countdown | if (countdown_timer_vars.items[a].channel_number == 255)
+T-countdown-window | countdown_timer:supla_esp_countdown_timer_countdown | i->last_time = uptime_msec()
+D-cfgbutton | cfgmode:supla_esp_cfgmode_start | if (cfgmode_vars.entertime != 0) return
+D-cfgbutton | cfgmode:supla_esp_cfgmode_start | cfgmode_vars.entertime = system_get_time()
+D-cfgbutton | cfgmode:supla_esp_cfgmode_started | return cfgmode_vars.entertime == 0 ? 0 : 1
+N-bydesign:GUID entropy | cfg:supla_esp_cfg_init | supla_esp_cfg.GUID[a]= (supla_esp_cfg.GUID[a] + system_get_time() + spi_flash_get_id() + system_get_chip_id() + system_get_rtc_time()) % 255
+N-notexercised:update check | supla_update:supla_esp_check_updates | update_checking_start_time = system_get_time()
+N-notexercised:update check | supla_update:supla_esp_update_started | if ( update_checking_start_time > 0 && system_get_time() - update_checking_start_time < 120000000 && update_step >= 2 )
+T-uptime | uptime:uptime_usec | uint32 time = system_get_time()
+T-uptime | uptime:uptime_usec | if (time < usermain_uptime.last_system_time)
+T-uptime | uptime:uptime_msec | return uptime_usec() / (unsigned long long)1000
+T-uptime | uptime:uptime_sec | return uptime_msec() / (unsigned long long)1000
+T-uptime | uptime:supla_esp_uptime_counter_watchdog_cb | uptime_usec()
+"""
+def _check_sites():
+    exp = [tuple(x.strip() for x in l.split(' | ', 2)) for l in _SITES_EXPECTED.strip().splitlines()]
+    got = ['%s:%s' % (f, n) + ' | ' + st for (f, n, st) in sites()]
+    want = [e[1] + ' | ' + e[2] for e in exp]
+    errs = []
+    for g in got:
+        if g not in want: errs.append('time expression not in the covered-sites list: ' + g[:160].replace('"', "'"))
+    for w in want:
+        if w not in got: errs.append('covered time expression disappeared: ' + w[:160].replace('"', "'"))
+    if [e for e in exp if e[0].startswith('??')]: errs.append('unclassified site in the list')
+    return errs[:3]
+def site_classes():
+    """{class: count} for the report / evidence"""
+    res = {}
+    for l in _SITES_EXPECTED.strip().splitlines():
+        k = l.split(' | ', 1)[0].split(':')[0].strip(); res[k] = res.get(k, 0) + 1
+    return res
+
 _vals, _errs = _extract()
+_errs = _errs + _check_sites()
 _names = ['UPTIME_MULT', 'UPTIME_MS_DIV', 'UPTIME_S_DIV', 'UPTIME_POLL_MS']
 G.GROUPS['UptimeConsts'] = dict(
     pre=('#include <stddef.h>\n#include <supla_esp.h>\n#include "uptime.c"\n'
